@@ -20,8 +20,23 @@ def impl_max_rate(r, a, j, T):
     return max(vs, ve)
 
 
+def bracket_clause(m, peak, r1, rT, j):
+    if not S.is_int(m):
+        return "peak.not_integer"
+    if m > peak:
+        return "peak.exceeds_true_peak"
+    if m < r1:
+        return "peak.below_first_tick"
+    if m < rT:
+        return "peak.below_last_tick"
+    if peak - m > abs(j):
+        return "peak.short_by_more_than_jerk"
+    return None
+
+
 def g_peak(ctx, ec, cfg):
     events = []
+    seen = []
     for st in S.stepped_vectors(ctx, "g_full", cfg):
         c = st["cmd"]
         r, a, j, T = c["r"], c["a"], c["j"], st["tick"]
@@ -30,6 +45,7 @@ def g_peak(ctx, ec, cfg):
         if c["c"] == S.CLEAR and 0 in st.get("_accs", ()):
             continue
         ctx.count(("G", r, a, j, T))
+        seen.append((T, r, a, j, st["peak"], st["rate1"], abs(st["rate"])))
         m = ec.max_rate_t3(T, r, a, j)
         case = {"mode": "G", "T": T, "rate": r, "accel": a, "jerk": j}
         peak, r1, rT = st["peak"], st["rate1"], abs(st["rate"])
@@ -49,6 +65,18 @@ def g_peak(ctx, ec, cfg):
             events.append(S.ev_val("max", r, a, j, T, peak, 15))       # the stepped TRUE peak must satisfy the leap's bracket trivially
         if ctx.evaluations % 4001 == 1:
             ctx.sample({"mode": "G", "T": T, "rate": r, "accel": a, "jerk": j, "stepped_peak": peak, "first": r1, "last": rT, "max_rate_t3": m})
+    # second pass in the opposite order (long moves first, then shorter ones of the same command): the answer may not depend on what was asked before
+    longest = {}
+    for (T, r, a, j, _p, _r1, _rT) in seen:
+        longest[(r, a, j)] = max(T, longest.get((r, a, j), 0))
+    for (T, r, a, j, peak, r1, rT) in reversed(seen):
+        cl = bracket_clause(ec.max_rate_t3(T, r, a, j), peak, r1, rT, j)
+        if cl:
+            ctx.violation(cl, {"mode": "G", "T": T, "rate": r, "accel": a, "jerk": j, "order": "after longer moves of the same command",
+                               "prelude_T": longest[(r, a, j)]},
+                          {"true_peak": peak, "first_tick": r1, "last_tick": rT}, "differs when asked after a longer move")
+            if ctx.enough(20):
+                break
     vs = S.judge(ctx, "g_cross", events)
     off = [(e, v) for e, v in zip(events, vs) if v != "ok"]
     if off:
@@ -119,6 +147,8 @@ def replay(rec):
     ec, _em, _mp = S.mods()
     c = rec["case"]
     T, r, a, j = c["T"], c["rate"], c["accel"], c["jerk"]
+    if c.get("prelude_T"):
+        ec.max_rate_t3(c["prelude_T"], r, a, j)          # the violation was observed after a longer move of the same command had been asked about
     ev = S.ev_val("max", r, a, j, T, ec.max_rate_t3(T, r, a, j), 15)
     ctx = vlib.Ctx("C17", "quick", 0, LEVEL, fresh=False)
     v = S.judge(ctx, "replay", [ev])[0]
